@@ -479,7 +479,7 @@ func (p DevDeleteImageReqPayload) MarshalBinary() ([]byte, error) {
 
 // UnmarshalBinary decodes the payload from a slice of bytes.
 func (p *DevDeleteImageReqPayload) UnmarshalBinary(data []byte) error {
-	if len(data) != p.Size() {
+	if len(data) < p.Size() {
 		return fmt.Errorf("lorawan/applayer/firmwaremanagement: %d bytes are expected", p.Size())
 	}
 
